@@ -89,5 +89,9 @@ Example C27_witness_pcheck_rejects :
       [(SBegin MPassword false, OContinue [APassword] false);
        (SCred (CPassword false) false, ODenied RBadPassword);
        (SCred (CPassword true) false, OContinue [APassword] false)])) = false /\
-  pcheck (CSess acct_mfa (mksess 901 false (OChoose [MPasswordTotp; MPasswordBackupCode; MPasskey]) [])) = false.
+  pcheck (CSess acct_mfa (mksess 901 false (OChoose [MPasswordTotp; MPasswordBackupCode; MPasskey]) [])) = false /\
+  (* a refusal at Init must be the right one: expired only outside the window *)
+  pcheck (CSess acct_mfa (mksess 500 false (ODenied RExpired) [])) = false /\
+  pcheck (CSess acct_mfa (mksess 500 false (ODenied RInvalidCredState) [])) = false /\
+  pcheck (CSess acct_mfa (mksess 901 false (ODenied RExpired) [(SBegin MPasskey false, OErr EInvalidSessionState)])) = true.
 Proof. vm_compute. repeat split; reflexivity. Qed.
